@@ -243,6 +243,26 @@ func checkC07(c *Ctx) {
 
 	// ---- codec error discipline and raw reads
 	codec := codecFuncs(p)
+	c.Rule("C07.stalecap", "STALE-CAPACITY: the codec never extends a slice into its spare capacity (a scratch buffer kept in the Decoder and resliced per call still holds the flags / bytes of the previous call; the decoding loops rely on the zero values of a fresh make)", 20)
+	{
+		n := 0
+		var hits []Finding
+		seenFn := map[*ssa.Function]bool{}
+		for _, pk := range curvePkgs {
+			for _, fn := range libFuncs(p, pk) {
+				if seenFn[fn] || !strings.HasSuffix(p.Fset.Position(fn.Pos()).Filename, "marshal.go") {
+					continue
+				}
+				seenFn[fn] = true
+				k, h := staleCapacityReslices(p, fn)
+				n += k
+				hits = append(hits, h...)
+			}
+		}
+		c.Instance("C07.stalecap", n)
+		reportFindings(c, p, "C07.stalecap", nil, hits, "")
+		c.Ob("C07.stalecap", "-", "-", "reslices-scanned", "-", n > 0, "no reslice found in the codec files")
+	}
 	{
 		sites, hits := droppedErrors(p, codec)
 		c.Instance("C07.err", sites)
